@@ -4,61 +4,84 @@
 (* the query log or the statistics.                                        *)
 (*                                                                         *)
 (* A tail-stage model: what happens to a query AFTER it has been answered. *)
-(* One behaviour is one server life ("script"):                            *)
+(* One behaviour is one server life ("script") over four configurations    *)
+(* K0..K3:                                                                 *)
 (*                                                                         *)
-(*   Pick C0 -> Record round 1 (and ANY probes) under C0 -> Flush (memory  *)
-(*   buffer to querylog.json) -> Reconf to C1 (admin API: new ignore       *)
-(*   lists, client flags flipped) -> Record round 2 under C1 -> Reconf to  *)
-(*   C2 -> done.                                                           *)
+(*   Pick -> Record round 1 (+ ANY probes) under K0 -> Flush (memory       *)
+(*   buffer to querylog.json) -> Reconf to K1 -> Record round 2 -> Flush   *)
+(*   -> Reconf to K2 -> Record round 3 (stays in memory) -> Reconf to K3   *)
+(*   -> done.                                                              *)
+(*                                                                         *)
+(* A reconfiguration is what the admin API can do to the tail stage:       *)
+(* replace the ignore lists, flip the persistent client's ignore flags,    *)
+(* and SetAnonymise / SetQueryLogEnabled / SetStatsEnabled -- the "toggle  *)
+(* plan" of a script is the triple of (anon, qlogOn, statsOn) states of    *)
+(* K0, K1, K2 (K3 keeps K2's), applied either through the current          *)
+(* endpoints (PUT .../config/update, which also carries the new list) or   *)
+(* through the legacy partial-update endpoint POST /control/querylog_config *)
+(* (ep = "legacy": only the changed switches are sent, the list stays).    *)
+(* So anonymisation can be switched while the log is disabled and the log  *)
+(* re-enabled later by either endpoint.                                    *)
+(*                                                                         *)
+(* Obligations are tied to the configuration in force when a record is     *)
+(* MADE: a record made under Ki is judged by Ki's lists/flags and must be  *)
+(* anonymised iff Ki.anon; the log API is judged by the current            *)
+(* configuration, and a reported address must be anonymised if             *)
+(* anonymisation has been on ever since the record was made.  Nothing is   *)
+(* demanded of records made before a toggle.                               *)
 (*                                                                         *)
 (* Stores: mem (query-log ring buffer), file (querylog.json), unit (the    *)
 (* current statistics unit: domains and clients / top-clients are          *)
 (* projections of it).  The log API is the operator Search.                *)
 (*                                                                         *)
-(* The MECHANISM (how the decision is taken) is modelled in two variants   *)
-(* selected by the constant Design:                                        *)
+(* The MECHANISM is modelled in two variants selected by Design:           *)
 (*   "intended"  the client is looked up by the address the query came     *)
 (*               from, the address is anonymised for storing only; the     *)
 (*               log API re-applies the current ignore list and client     *)
-(*               flag to memory and file entries alike;                    *)
-(*   "asbuilt"   dnsforward/stats.go as it is: the address is anonymised   *)
-(*               first and the client looked up by the result;             *)
-(*               querylog/search.go re-filters file entries only.          *)
+(*               flag to memory and file entries alike (this is the code   *)
+(*               after fixes 950f1cb and c004ed7);                         *)
+(*   "asbuilt"   the code as it was found: the address is anonymised first *)
+(*               and the client looked up by the result; the log API       *)
+(*               re-filters file entries only.                             *)
 (* The STATEMENT is the set of invariants at the end.  TLC shows           *)
-(* intended |= invariants (IgnoreAnon.mc.cfg / gen.cfg), and that asbuilt  *)
-(* violates them (IgnoreAnon.asbuilt*.cfg, expected violations), and that  *)
-(* no design can satisfy the strict search-time clause once the stored     *)
-(* address is anonymised (IgnoreAnon.strict.cfg, expected violation).      *)
+(* intended |= invariants (gen cfgs), that asbuilt violates them           *)
+(* (IgnoreAnon.asbuilt*.cfg, expected violations), and that no design can  *)
+(* satisfy the strict search-time clause once the stored address is        *)
+(* anonymised (IgnoreAnon.strict.cfg, expected violation; open finding).   *)
 (*                                                                         *)
 (* Direction A: the final action of every script prints one JSON line      *)
-(* with the three configurations and the verdict tables of the statement   *)
+(* with the four configurations and the verdict tables of the statement    *)
 (* (IgnoreAnonCore: LogVerdict, CountVerdict, ApiVerdict) for every query  *)
 (* and observation point; the Go harness runs the script against the real  *)
 (* wiring of package home.                                                 *)
 (***************************************************************************)
 EXTENDS Sequences, Naturals, FiniteSets, TLC, Json
 
-CONSTANT Design
+CONSTANTS Design,  \* "intended" | "asbuilt"
+          Lis,     \* which rotations of the list family are enumerated
+          Plans    \* "cover": toggle plans x,y,x (every ordered pair of switch
+                   \* states occurs as a step); "all": every triple
 
 INSTANCE IgnoreAnonCore WITH LowBits <- 2
 
 VARIABLES ph,     \* phase of the script
-          par,    \* the script's parameters (output only)
+          par,    \* the script's parameters
           cfg,    \* current configuration
-          c0, c1, \* configurations rounds 1 and 2 were recorded under
           mem, file, unit
-vars == <<ph, par, cfg, c0, c1, mem, file, unit>>
+vars == <<ph, par, cfg, mem, file, unit>>
 
 \* ----------------------------------------------------------------- universe
-Names == << Root, <<"com">>, <<"a", "com">>, <<"b", "a", "com">>, <<"xa", "com">>, <<"b", "org">> >>
+\* Labels contain the boundary letters of the alphabet (the Go side varies
+\* the letter case per position); xaz.com is a suffix look-alike of az.com.
+Names == << Root, <<"com">>, <<"az", "com">>, <<"zb", "az", "com">>, <<"xaz", "com">>, <<"zb", "org">> >>
 
 P(k, n) == [k |-> k, n |-> n]
 Lists == << {},
-            {P("plain", <<"a", "com">>)},
-            {P("domain", <<"a", "com">>)},
-            {P("wild", <<"a", "com">>)},
+            {P("plain", <<"az", "com">>)},
+            {P("domain", <<"az", "com">>)},
+            {P("wild", <<"az", "com">>)},
             {P("root", Root)},
-            {P("plain", <<"b", "org">>), P("wild", <<"com">>)} >>
+            {P("plain", <<"zb", "org">>), P("wild", <<"com">>)} >>
 NL == Len(Lists)
 L(i) == Lists[(i % NL) + 1]
 
@@ -72,29 +95,30 @@ S6 == A("v6", <<0, 1, 0, 1>>)
 M4 == A("m4", <<0, 1, 1, 0>>)     \* T4 in IPv4-mapped form
 X4 == A("v4", <<1, 1, 0, 1>>)     \* carrier address of the ClientID clients
 
-\* The querying principals.  qt = <<type in round 1, type in round 2>>: the
-\* question type is the tag by which an observed entry is attributed to its
-\* query (addresses cannot, they get anonymised).
+\* The querying principals.  qt = question type in rounds 1, 2, 3: the type is
+\* the tag by which an observed entry is attributed to its query (addresses
+\* cannot, they get anonymised).
 Senders == <<
-    [cl |-> "T4", addr |-> T4, cid |-> "",     qt |-> <<"A", "AAAA">>],
-    [cl |-> "S4", addr |-> S4, cid |-> "",     qt |-> <<"TXT", "MX">>],
-    [cl |-> "U4", addr |-> U4, cid |-> "",     qt |-> <<"SRV", "CAA">>],
-    [cl |-> "Z4", addr |-> Z4, cid |-> "",     qt |-> <<"NAPTR", "LOC">>],
-    [cl |-> "T6", addr |-> T6, cid |-> "",     qt |-> <<"HINFO", "RP">>],
-    [cl |-> "S6", addr |-> S6, cid |-> "",     qt |-> <<"AFSDB", "SSHFP">>],
-    [cl |-> "M4", addr |-> M4, cid |-> "",     qt |-> <<"TLSA", "URI">>],
-    [cl |-> "C1", addr |-> X4, cid |-> "cli1", qt |-> <<"CERT", "SPF">>],
-    [cl |-> "C2", addr |-> X4, cid |-> "cli2", qt |-> <<"KX", "DNAME">>] >>
+    [cl |-> "T4", addr |-> T4, cid |-> "",      qt |-> <<"A", "AAAA", "NS">>],
+    [cl |-> "S4", addr |-> S4, cid |-> "",      qt |-> <<"TXT", "MX", "SOA">>],
+    [cl |-> "U4", addr |-> U4, cid |-> "",      qt |-> <<"SRV", "CAA", "DNSKEY">>],
+    [cl |-> "Z4", addr |-> Z4, cid |-> "",      qt |-> <<"NAPTR", "LOC", "NSEC">>],
+    [cl |-> "T6", addr |-> T6, cid |-> "",      qt |-> <<"HINFO", "RP", "OPENPGPKEY">>],
+    [cl |-> "S6", addr |-> S6, cid |-> "",      qt |-> <<"AFSDB", "SSHFP", "SMIMEA">>],
+    [cl |-> "M4", addr |-> M4, cid |-> "",      qt |-> <<"TLSA", "URI", "EUI48">>],
+    [cl |-> "C1", addr |-> X4, cid |-> "cliz1", qt |-> <<"CERT", "SPF", "EUI64">>],
+    [cl |-> "C2", addr |-> X4, cid |-> "cliz2", qt |-> <<"KX", "DNAME", "CSYNC">>] >>
 
-\* A query is identified by <<name index, sender index, round>>; round 3 is
+\* A query is identified by <<name index, sender index, round>>; round 4 is
 \* the ANY probe, sent by T4 together with round 1.
 Q(ni, si, r) == [id |-> <<ni, si, r>>, name |-> Names[ni], addr |-> Senders[si].addr,
                  cid |-> Senders[si].cid,
-                 qt |-> IF r = 3 THEN "ANY" ELSE Senders[si].qt[r]]
+                 qt |-> IF r = 4 THEN "ANY" ELSE Senders[si].qt[r]]
 Round(r) == {Q(ni, si, r) : ni \in DOMAIN Names, si \in DOMAIN Senders}
-AnyProbe == {Q(ni, 1, 3) : ni \in DOMAIN Names}
-Batch1 == Round(1) \cup AnyProbe
-Batch2 == Round(2)
+AnyProbe == {Q(ni, 1, 4) : ni \in DOMAIN Names}
+\* What is recorded under K(i).
+Batch(i) == IF i = 0 THEN Round(1) \cup AnyProbe ELSE Round(i + 1)
+KOfRound(r) == IF r = 4 THEN 0 ELSE r - 1
 
 ClientVariants ==
     { [kind |-> "ip", addr |-> T4], [kind |-> "ip", addr |-> Z4], [kind |-> "ip", addr |-> T6],
@@ -102,37 +126,61 @@ ClientVariants ==
       [kind |-> "cidr", fam |-> "v4", bits |-> <<0, 1, 1>>],
       [kind |-> "cidr", fam |-> "v6", bits |-> <<0, 1, 1>>],
       [kind |-> "mac", addr |-> T4],
-      [kind |-> "cid", cid |-> "cli1"] }
+      [kind |-> "cid", cid |-> "cliz1"] }
 NoClient == [kind |-> "none"]
 FlagPairs == {<<TRUE, FALSE>>, <<FALSE, TRUE>>, <<TRUE, TRUE>>}
 
+\* Switch states and toggle plans.
+Sw(a, q, s) == [anon |-> a, qlogOn |-> q, statsOn |-> s]
+Switches == {Sw(a, q, s) : a \in BOOLEAN, q \in BOOLEAN, s \in BOOLEAN}
+Steady(a) == <<Sw(a, TRUE, TRUE), Sw(a, TRUE, TRUE), Sw(a, TRUE, TRUE)>>
+TogglePlans == IF Plans = "all" THEN {<<x, y, z>> : x \in Switches, y \in Switches, z \in Switches}
+               ELSE {<<x, y, x>> : x \in Switches, y \in Switches}
+
+\* Family I: every client variant, flags, list rotation, anonymisation and
+\* ANY-refusal, switches steady.  Family T: every toggle plan by either
+\* endpoint on one base configuration (client by exact IP, both flags).
+FamilyI == {[li |-> li, client |-> cf[1], fl |-> cf[2], refuseAny |-> ra, plan |-> Steady(an), ep |-> "put"] :
+              li \in Lis, an \in BOOLEAN, ra \in BOOLEAN,
+              cf \in ({<<NoClient, <<FALSE, FALSE>>>>} \cup (ClientVariants \X FlagPairs))}
+FamilyT == {[li |-> 2, client |-> [kind |-> "ip", addr |-> T4], fl |-> <<TRUE, TRUE>>, refuseAny |-> FALSE,
+             plan |-> pl, ep |-> ep] : pl \in TogglePlans, ep \in {"put", "legacy"}}
+Scripts == FamilyI \cup FamilyT
+
 \* ------------------------------------------------------------ configurations
-Conf0(p) == [ignQ |-> L(p.li), ignS |-> L(p.li + 1), client |-> p.client,
-             flagQ |-> p.fl[1], flagS |-> p.fl[2], anon |-> p.anon, refuseAny |-> p.refuseAny]
-\* First reconfiguration: both lists replaced, both client flags flipped.
-Conf1(p) == [Conf0(p) EXCEPT !.ignQ = L(p.li + 2), !.ignS = L(p.li + 3),
-                             !.flagQ = (p.client.kind # "none" /\ ~p.fl[1]),
-                             !.flagS = (p.client.kind # "none" /\ ~p.fl[2])]
-\* Second one: another query-log list, the query-log flag flipped back.
-Conf2(p) == [Conf1(p) EXCEPT !.ignQ = L(p.li + 4),
-                             !.flagQ = (p.client.kind # "none" /\ p.fl[1])]
+HasClient(p) == p.client.kind # "none"
+\* The legacy endpoint cannot replace the list.
+ListQ(p, i) == IF i = 3 THEN L(p.li + 5)
+               ELSE IF p.ep = "legacy" THEN L(p.li)
+               ELSE L(p.li + 2 * i)
+K(p, i) ==
+    LET sw == p.plan[IF i = 3 THEN 3 ELSE i + 1] IN
+    [ignQ |-> ListQ(p, i),
+     ignS |-> IF i = 0 THEN L(p.li + 1) ELSE L(p.li + 3),
+     client |-> p.client,
+     \* the query-log flag is flipped by every reconfiguration, the
+     \* statistics flag by the first one
+     flagQ |-> HasClient(p) /\ (IF i % 2 = 0 THEN p.fl[1] ELSE ~p.fl[1]),
+     flagS |-> HasClient(p) /\ (IF i = 0 THEN p.fl[2] ELSE ~p.fl[2]),
+     anon |-> sw.anon, qlogOn |-> sw.qlogOn, statsOn |-> sw.statsOn,
+     refuseAny |-> p.refuseAny]
 
 \* ---------------------------------------------------------------- mechanism
 LookupAddr(c, q) == IF Design = "asbuilt" THEN StoredAddr(c, q) ELSE q.addr
 Refused(c, q)    == q.qt = "ANY" /\ c.refuseAny     \* answered by the proxy itself
-MechLog(c, q)    == /\ ~Refused(c, q)
+MechLog(c, q)    == /\ c.qlogOn /\ ~Refused(c, q)
                     /\ ~(c.flagQ /\ IdentsBy(c.client, LookupAddr(c, q), q.cid))
                     /\ ~IgnoreMatch(c.ignQ, q.name)
-MechCount(c, q)  == /\ ~Refused(c, q)
+MechCount(c, q)  == /\ c.statsOn /\ ~Refused(c, q)
                     /\ ~(c.flagS /\ IdentsBy(c.client, LookupAddr(c, q), q.cid))
                     /\ ~IgnoreMatch(c.ignS, q.name)
 
-\* A stored entry: the query's id, which configuration it was recorded under
-\* (0 = c0, 1 = c1; history information for the invariants) and the address
+\* A stored entry: the query's id (its round says which configuration it was
+\* recorded under -- history information for the invariants) and the address
 \* as stored.
-Entry(c, q) == [q |-> q.id, r |-> IF ph = "r1" THEN 0 ELSE 1, addr |-> StoredAddr(c, q)]
+Entry(c, q) == [q |-> q.id, addr |-> StoredAddr(c, q)]
 QOf(e)   == Q(e.q[1], e.q[2], e.q[3])
-RecOf(e) == IF e.r = 0 THEN c0 ELSE c1
+RecOf(e) == K(par, KOfRound(e.q[3]))
 
 \* The log API under configuration cur.  A stored entry can only be
 \* re-identified by what was stored.
@@ -140,111 +188,128 @@ Visible(cur, e) == /\ ~IgnoreMatch(cur.ignQ, QOf(e).name)
                    /\ ~(cur.flagQ /\ IdentsBy(cur.client, e.addr, QOf(e).cid))
 Search(cur) == {e \in file : Visible(cur, e)}
                  \cup (IF Design = "asbuilt" THEN mem ELSE {e \in mem : Visible(cur, e)})
+\* The API masks the address on output with the current anonymiser.
 Reported(cur, e) == IF cur.anon THEN Anon(e.addr) ELSE e.addr
 
 \* ------------------------------------------------------------- vector output
 NonYes(t) == {x \in t : x.v # "yes"}
-Tbl(rec, cur, qs) == {[q |-> q.id, v |-> ApiVerdict(rec, cur, q)] : q \in qs}
+\* The log API under K(p, k): everything recorded so far.
+ApiTbl(p, k) == UNION {{[q |-> q.id, v |-> ApiVerdict(K(p, i), K(p, k), q)] : q \in Batch(i)} : i \in 0..(IF k = 3 THEN 2 ELSE k)}
+\* Rounds whose entries must be REPORTED anonymised under K(p, k):
+\* anonymisation has been on ever since they were recorded.
+AnonSince(p, r, k) == \A j \in KOfRound(r)..k : K(p, j).anon
 Vector(p) ==
-    LET k0 == Conf0(p)  k1 == Conf1(p)  k2 == Conf2(p) IN
-    [kind |-> "script", par |-> p, c0 |-> k0, c1 |-> k1, c2 |-> k2,
-     \* record-time verdicts (round 1 + ANY under c0, round 2 under c1)
-     log |-> NonYes({[q |-> q.id, v |-> LogVerdict(k0, q)] : q \in Batch1}
-                      \cup {[q |-> q.id, v |-> LogVerdict(k1, q)] : q \in Batch2}),
-     cnt |-> NonYes({[q |-> q.id, v |-> CountVerdict(k0, q)] : q \in Batch1}
-                      \cup {[q |-> q.id, v |-> CountVerdict(k1, q)] : q \in Batch2}),
-     \* the log API at the four later observation points
-     api1  |-> NonYes(Tbl(k0, k1, Batch1)),
-     api1b |-> NonYes(Tbl(k0, k1, Batch1) \cup Tbl(k1, k1, Batch2)),
-     api2  |-> NonYes(Tbl(k0, k2, Batch1) \cup Tbl(k1, k2, Batch2))]
+    [kind |-> "script", par |-> p, k |-> <<K(p, 0), K(p, 1), K(p, 2), K(p, 3)>>,
+     \* record-time verdicts
+     log |-> NonYes(UNION {{[q |-> q.id, v |-> LogVerdict(K(p, i), q)] : q \in Batch(i)} : i \in 0..2}),
+     cnt |-> NonYes(UNION {{[q |-> q.id, v |-> CountVerdict(K(p, i), q)] : q \in Batch(i)} : i \in 0..2}),
+     \* the log API under K1, K2, K3
+     api |-> <<NonYes(ApiTbl(p, 1)), NonYes(ApiTbl(p, 2)), NonYes(ApiTbl(p, 3))>>,
+     \* anonrep[k+1] = rounds to be reported anonymised under K(k)
+     anonrep |-> [k \in 1..4 |-> {r \in 1..4 : KOfRound(r) <= k - 1 /\ AnonSince(p, r, k - 1)}]]
 
 Universe == [kind |-> "universe", names |-> Names, senders |-> Senders, lowbits |-> 2, width |-> 4]
 
 \* ---------------------------------------------------------------- behaviour
-NoPar == [li |-> 0, client |-> NoClient, fl |-> <<FALSE, FALSE>>, anon |-> FALSE, refuseAny |-> FALSE]
-NoCfg == Conf0(NoPar)
+NoPar == [li |-> 0, client |-> NoClient, fl |-> <<FALSE, FALSE>>, refuseAny |-> FALSE,
+          plan |-> Steady(FALSE), ep |-> "put"]
 
-Init == /\ ph = "universe" /\ par = NoPar /\ cfg = NoCfg /\ c0 = NoCfg /\ c1 = NoCfg
+Init == /\ ph = "universe" /\ par = NoPar /\ cfg = K(NoPar, 0)
         /\ mem = {} /\ file = {} /\ unit = {}
 
 EmitUniverse ==
     /\ ph = "universe"
     /\ PrintT(<<"@@V", ToJson(Universe)>>)
     /\ ph' = "pick"
-    /\ UNCHANGED <<par, cfg, c0, c1, mem, file, unit>>
+    /\ UNCHANGED <<par, cfg, mem, file, unit>>
 
 Pick ==
     /\ ph = "pick"
-    /\ \E li \in 0..(NL - 1), an \in BOOLEAN, ra \in BOOLEAN :
-         \E cf \in ({<<NoClient, <<FALSE, FALSE>>>>} \cup (ClientVariants \X FlagPairs)) :
-           /\ par' = [li |-> li, client |-> cf[1], fl |-> cf[2], anon |-> an, refuseAny |-> ra]
-           /\ cfg' = Conf0(par')
-    /\ c0' = cfg' /\ ph' = "r1"
-    /\ UNCHANGED <<c1, mem, file, unit>>
+    /\ \E p \in Scripts : par' = p /\ cfg' = K(p, 0)
+    /\ ph' = "r1"
+    /\ UNCHANGED <<mem, file, unit>>
 
-Record(batch) ==
-    /\ mem'  = mem  \cup {Entry(cfg, q) : q \in {x \in batch : MechLog(cfg, x)}}
-    /\ unit' = unit \cup {Entry(cfg, q) : q \in {x \in batch : MechCount(cfg, x)}}
+Record(i, next) ==
+    /\ mem'  = mem  \cup {Entry(cfg, q) : q \in {x \in Batch(i) : MechLog(cfg, x)}}
+    /\ unit' = unit \cup {Entry(cfg, q) : q \in {x \in Batch(i) : MechCount(cfg, x)}}
+    /\ ph' = next
+    /\ UNCHANGED <<par, cfg, file>>
 
-Record1 == /\ ph = "r1" /\ Record(Batch1) /\ ph' = "flush"
-           /\ UNCHANGED <<par, cfg, c0, c1, file>>
-Flush   == /\ ph = "flush" /\ file' = file \cup mem /\ mem' = {} /\ ph' = "reconf1"
-           /\ UNCHANGED <<par, cfg, c0, c1, unit>>
-Reconf1 == /\ ph = "reconf1" /\ cfg' = Conf1(par) /\ c1' = cfg' /\ ph' = "r2"
-           /\ UNCHANGED <<par, c0, mem, file, unit>>
-Record2 == /\ ph = "r2" /\ Record(Batch2) /\ ph' = "reconf2"
-           /\ UNCHANGED <<par, cfg, c0, c1, file>>
-Reconf2 == /\ ph = "reconf2" /\ cfg' = Conf2(par) /\ ph' = "done"
+FlushTo(next) == /\ file' = file \cup mem /\ mem' = {} /\ ph' = next
+                 /\ UNCHANGED <<par, cfg, unit>>
+
+\* SetIgnoreLists + SetClientFlags + SetAnonymise + SetQueryLogEnabled +
+\* SetStatsEnabled in one step, as far as the script's plan changes them.
+Reconf(i, next) == /\ cfg' = K(par, i) /\ ph' = next
+                   /\ UNCHANGED <<par, mem, file, unit>>
+
+Record1 == ph = "r1" /\ Record(0, "flush1")
+Flush1  == ph = "flush1" /\ FlushTo("reconf1")
+Reconf1 == ph = "reconf1" /\ Reconf(1, "r2")
+Record2 == ph = "r2" /\ Record(1, "flush2")
+Flush2  == ph = "flush2" /\ FlushTo("reconf2")
+Reconf2 == ph = "reconf2" /\ Reconf(2, "r3")
+Record3 == ph = "r3" /\ Record(2, "reconf3")
+Reconf3 == /\ ph = "reconf3" /\ Reconf(3, "done")
            /\ PrintT(<<"@@V", ToJson(Vector(par))>>)
-           /\ UNCHANGED <<par, c0, c1, mem, file, unit>>
 
-Next == EmitUniverse \/ Pick \/ Record1 \/ Flush \/ Reconf1 \/ Record2 \/ Reconf2
+Next == EmitUniverse \/ Pick \/ Record1 \/ Flush1 \/ Reconf1 \/ Record2 \/ Flush2 \/ Reconf2
+          \/ Record3 \/ Reconf3
 Spec == Init /\ [][Next]_vars
 
 \* ------------------------------------------------- the statement, as invariants
 Stored == mem \cup file
+\* Index of the configuration in force in the current phase.
+CurIdx == CASE ph \in {"r2", "flush2", "reconf2"} -> 1
+            [] ph \in {"r3", "reconf3"} -> 2
+            [] ph = "done" -> 3
+            [] OTHER -> 0
 
 \* "... are never recorded in the query log (resp. statistics), neither in
 \* memory nor on disk"
 NoIgnoredLogged  == \A e \in Stored : ShouldLog(RecOf(e), QOf(e))
 NoIgnoredCounted == \A e \in unit   : ShouldCount(RecOf(e), QOf(e))
-\* "... every client address stored ..."
+\* "... every client address stored ..." -- under the setting in force when
+\* the record was made
 AnonStored       == \A e \in Stored \cup unit : RecOf(e).anon => IsAnon(e.addr)
-\* "... or reported ..."
-AnonReported     == \A e \in Search(cfg) : cfg.anon => IsAnon(Reported(cfg, e))
+\* "... or reported ..." -- for records made since anonymisation was last
+\* switched on
+AnonReported     == \A e \in Search(cfg) : AnonSince(par, e.q[3], CurIdx) => IsAnon(Reported(cfg, e))
 \* "... the log API does not return entries whose name ... is currently ignored"
 SearchNames      == \A e \in Search(cfg) : ~IgnoreMatch(cfg.ignQ, QOf(e).name)
 \* "... or client is currently ignored" -- as far as the stored entry still
 \* identifies its sender (a ClientID, the full address, or an address whose
 \* anonymised form is still inside the client's subnet) ...
 SearchClientsIdentifiable ==
-    \A e \in Search(cfg) : ~(IgnoredClientQ(cfg, QOf(e)) /\ ~LostByAnon(cfg, QOf(e)))
+    \A e \in Search(cfg) : ~(IgnoredClientQ(cfg, QOf(e)) /\ ~Lost(cfg.client, QOf(e), e.addr))
 \* ... and as the statement literally says.  No mechanism can satisfy this one
 \* for entries stored anonymised (strict.cfg shows the counterexample).
 SearchClientsStrict == \A e \in Search(cfg) : ~IgnoredClientQ(cfg, QOf(e))
 
 \* The verdict tables handed to the harness agree with the intended mechanism:
-\* nothing recorded is "no", everything "yes" is recorded.
+\* nothing recorded is "no", everything "yes" is recorded / returned.
 OracleConsistent ==
     LET logged  == {e.q : e \in Stored}
         counted == {e.q : e \in unit}
         found   == {e.q : e \in Search(cfg)}
-        Agree(c, batch) ==
-            \A q \in batch :
+        Agree(i) ==
+            \A q \in Batch(i) :
+                LET c == K(par, i) IN
                 /\ IsNo(LogVerdict(c, q))      => q.id \notin logged
                 /\ LogVerdict(c, q) = "yes"    => q.id \in logged
                 /\ IsNo(CountVerdict(c, q))    => q.id \notin counted
                 /\ CountVerdict(c, q) = "yes"  => q.id \in counted
         \* The strict search-time clause is unattainable for entries whose
-        \* sender can no longer be identified (LostByAnon): excluded here,
-        \* see SearchClientsStrict.
-        AgreeApi(c, batch) ==
-            \A q \in batch :
-                /\ IsNo(ApiVerdict(c, cfg, q)) /\ ~LostByAnon(cfg, q) => q.id \notin found
-                /\ ApiVerdict(c, cfg, q) = "yes" => q.id \in found
-    IN /\ ph = "reconf1" => Agree(c0, Batch1) /\ AgreeApi(c0, Batch1)
-       /\ ph = "done"    => Agree(c1, Batch2) /\ AgreeApi(c0, Batch1) /\ AgreeApi(c1, Batch2)
+        \* sender can no longer be identified: excluded here, see
+        \* SearchClientsStrict.
+        AgreeApi(i) ==
+            \A q \in Batch(i) :
+                LET rec == K(par, i) IN
+                /\ IsNo(ApiVerdict(rec, cfg, q)) /\ ~Lost(cfg.client, q, StoredAddr(rec, q)) => q.id \notin found
+                /\ ApiVerdict(rec, cfg, q) = "yes" => q.id \in found
+    IN /\ ph = "reconf1" => Agree(0) /\ AgreeApi(0)
+       /\ ph = "done"    => Agree(1) /\ Agree(2) /\ AgreeApi(0) /\ AgreeApi(1) /\ AgreeApi(2)
 
-\* Non-vacuity (every kind of verdict occurs, every reason occurs) is checked
-\* by checks/c08.py on the emitted tables.
+\* Non-vacuity (every kind of verdict occurs, every reason occurs, every
+\* switch transition occurs) is checked by checks/c08.py on the emitted tables.
 =============================================================================
